@@ -90,6 +90,8 @@ def violation_for(src, extra=frozenset()):
             return ('non-literal-difference', '%r -> %r: %s -> %s' % (base, out, ast.dump(a)[:200], ast.dump(b)[:200]))
         va = foldcmp.evaluate(a)
         vb = foldcmp.evaluate(b)
+        if 'too-expensive' in (va[0], vb[0]):
+            continue        # an evaluation that was refused / timed out on either side decides nothing
         if va[0] == 'raises':
             return ('folded-raising-expression', '%r -> %r: original raises %s, replacement gives %r' % (base, out, va[1], vb))
         if len(va) > 1 and va[1] == 'nan' or (va[0] == 'complex' and ('float', 'nan') in va[1:]):
